@@ -197,6 +197,19 @@ def list_subqueries(segment: BaseSegment) -> list[SubQueryTuple]:
         for join_clause in list_join_clause(segment):
             if from_expression_element := find_from_expression_element(join_clause):
                 subquery += list_subqueries(from_expression_element)
+            if join_on_condition := join_clause.get_child("join_on_condition"):
+                # JOIN ... ON a.id IN (SELECT ...): the condition can read tables just like WHERE
+                bracketeds = []
+                if expression := join_on_condition.get_child("expression"):
+                    bracketeds = expression.get_children("bracketed")
+                elif bracketed_on := join_on_condition.get_child("bracketed"):
+                    if expression := bracketed_on.get_child("expression"):
+                        bracketeds = expression.get_children("bracketed")
+                subquery += [
+                    SubQueryTuple(extract_innermost_bracketed(bracketed), None)
+                    for bracketed in bracketeds
+                    if is_subquery(bracketed)
+                ]
     elif is_set_expression(segment):
         subquery = [
             SubQueryTuple(s, None)
